@@ -119,3 +119,14 @@ reg('C17', 'exploration',
     '1014}. Invalid classes: every length 0..23, the 24-byte header, first length max / max+1, every bit 2..128 alone in the '
     'first bitmap. Unblocked files with 0x40 0x40 at bytes 1012-1013 are not judged on the blocking answer.',
     'Files come from the real IpmWriter under the packaged configuration; vmon/ref/codec.py is used only to size them.')
+
+reg('C07', 'fault_enumeration',
+    'runtime monitor with a sys.monitoring line-step budget: real loads / VbsReader / IpmReader / extraction tools driven over structurally enumerated faults; outcome class and raise site observed for every input',
+    'For 20 (quick) / 400 (thorough) well-formed bases covering every field kind, four codecs, both bitmaps, packaged and '
+    'generated configuration: every structural byte (bitmap, length prefixes, PDS tags and sub-lengths, TLV tags and lengths) x '
+    'all 256 values, every length field rewritten to negative / zero / at-over-far-over spellings, truncation at every offset, '
+    'seeded multi-point mutation, random byte strings; the same at file level (record prefixes, block trailers, terminator, '
+    'embedded message faults) through both readers and both extraction tools in-process. Non-termination is decided as bounded '
+    'progress (20 000 + 100 executed cardutil lines per input byte), not wall-clock.',
+    'Bounded progress stands in for termination (worst legitimate path measured < 10 lines/byte). vmon/ref/codec.py lays out the bases. '
+    'A hang inside C code that emits no line events would only trip the per-shard wall-clock watchdog (inconclusive).')
